@@ -155,6 +155,10 @@ def _flt(x):
         return None
     if x == "nan":
         return math.nan
+    if isinstance(x, (bool, int, float)):
+        return float(x)
+    if isinstance(x, str) and x.startswith("s:"):
+        return math.nan
     return float.fromhex(x)
 
 
